@@ -41,6 +41,25 @@ theorem dual_eq_grad (p : Prog R) (hd : DivOK p) (i : Nat) (env : Nat → R) :
   rw [hk]
   exact ⟨rfl, rfl⟩
 
+/-- **Comparing traces is comparing the plain numbers**, whatever input is seeded; a `clone` is
+    the same trace and `Display` shows the number. -/
+theorem compare_eq_plain [NumOrd R] (p : Prog R) (hd : DivOK p) (i : Nat) (env : Nat → R)
+    (a b : Nat) (render : R → String) :
+    let ds := Prog.execDual i env p
+    (getDual ds a).eq (getDual ds b)
+      = NumOrd.eq ((Prog.eval env p).getD a 0) ((Prog.eval env p).getD b 0) ∧
+    (getDual ds a).partialCmp (getDual ds b)
+      = numPartialCmp ((Prog.eval env p).getD a 0) ((Prog.eval env p).getD b 0) ∧
+    (getDual ds a).clone = getDual ds a ∧
+    (getDual ds a).display render = render ((Prog.eval env p).getD a 0) := by
+  intro ds
+  have ha := ((dual_eq_grad p hd i env).2 a).1
+  have hb := ((dual_eq_grad p hd i env).2 b).1
+  refine ⟨?_, ?_, rfl, ?_⟩
+  · simp only [Dual.eq, ds, ha, hb]
+  · simp only [Dual.partialCmp, ds, ha, hb]
+  · simp only [Dual.display, ds, ha]
+
 /-- **Seeding each input in turn reproduces the gradient reverse mode reports.**  For the same
     program run with records on a tape: a result with a tape has `derivatives()` whose entry at
     the position of every input `i` equals the derivative component of the trace of the run
